@@ -276,14 +276,15 @@ impl Jsonify for Value {
   fn jsonify(&self) -> String {
     match self {
       Value::Boolean(value) => format!("{}", value),
-      Value::ExpressionList(items) => items.to_string(),
+      Value::ExpressionList(items) => items.jsonify(),
       Value::Context(ctx) => ctx.jsonify(),
-      Value::ContextEntryKey(name) => name.to_string(),
+      Value::ContextEntryKey(name) => to_json_string(&name.to_string()),
       Value::List(items) => items.jsonify(),
       Value::Number(value) => value.jsonify(),
       Value::Null(_) => "null".to_string(),
       Value::String(s) => to_json_string(s),
-      _ => format!("jsonify not implemented for: {}", self),
+      // values of all other kinds (dates, times, durations, ranges...) are rendered as JSON strings containing their textual form
+      other => to_json_string(&other.to_string()),
     }
   }
 }
